@@ -20,6 +20,7 @@ import importlib
 import json
 import os
 import sys
+import time
 import traceback
 
 from . import core, gen
@@ -183,6 +184,7 @@ def run(prop: str, tier: str, replay: str | None) -> int:
     per_component = {}
 
     for comp in comps:
+        t_comp = time.time()
         if replay:
             if rp.get("component") not in (None, comp.name):
                 continue
@@ -237,7 +239,8 @@ def run(prop: str, tier: str, replay: str | None) -> int:
                 # a disagreement on a case covered by a known finding is expected only if the
                 # model is of the full-strength behaviour; we still record it.
                 disagreements.append({"component": comp.name, "case": c, "impl": io, "model": mo})
-        per_component[comp.name] = {"cases": len(cases), "disagreements": n_dis, "oracle_failures": n_or}
+        per_component[comp.name] = {"cases": len(cases), "disagreements": n_dis, "oracle_failures": n_or,
+                                    "wall_s": round(time.time() - t_comp, 1)}
 
     # shrink the first few failures / disagreements
     comp_by_name = {c.name: c for c in comps}
